@@ -401,6 +401,7 @@ struct Obs15<'a> {
     twin_prev: Option<Snapshot>,
     /// RIS events as the parser delivered them
     parser_resets: Vec<Op>,
+    saw_ris: bool,
 }
 
 fn owns_reset(op: &Op) -> bool {
@@ -420,6 +421,7 @@ impl<'a> Observer for Obs15<'a> {
             // power-on state of the current dimensions
             let fresh = Screen::new(ctx.post.columns, ctx.post.lines);
             let fs = Snapshot::take(&fresh);
+            self.saw_ris = true;
             self.cov.hit("ris_steps");
             if ctx.pre.savepoints.len() > 0 {
                 self.cov.hit("probe_ris_with_savepoints");
@@ -564,10 +566,12 @@ impl Property for C15 {
         h
     }
     fn check(&self, trace: &Trace, cov: &mut Coverage) -> Result<(), Violation> {
-        let mut obs = Obs15 { cov, twin: None, twin_prev: None, parser_resets: vec![] };
+        let mut obs = Obs15 { cov, twin: None, twin_prev: None, parser_resets: vec![], saw_ris: false };
         let stats = exec::run_q(trace, &mut obs).map(|x| x.0)?;
         let delivered = std::mem::take(&mut obs.parser_resets);
+        let had_ris = obs.saw_ris;
         common_cov(cov, &stats);
+        cov.nontrivial = Some(had_ris);
         // every ESC c in the stream must reach the screen as a reset, and nothing else may
         crate::props::steps::parser_path("C15", trace, &delivered, owns_reset, cov)?;
         fresh_parser_twin(trace, cov)
